@@ -68,7 +68,8 @@ RECURSIVE InbR(_, _, _, _, _)
 InbR(pk, i, st, ver, acc) ==
   IF i > Len(pk) THEN [acc |-> acc, st |-> st]
   ELSE LET d == DecodeLenient(pk[i], ver)
-           p == IF IsBad(d) THEN [t |-> "malformed", why |-> d.why] ELSE d
+           p == IF IsBad(d) THEN [t |-> "malformed", why |-> d.why]
+                ELSE IF d.t = "PUBLISH" /\ d.qos = 3 THEN [t |-> "malformed", why |-> "publish.qos3"] ELSE d
            st2 == IF p.t = "CONNACK" /\ st = "connecting" THEN (IF p.code = 0 THEN "connected" ELSE "idle") ELSE st
        IN InbR(pk, i + 1, st2, ver, Append(acc, [raw |-> pk[i], p |-> p, st |-> st]))
 Inbound(c, ln) ==
@@ -347,6 +348,14 @@ C05_Step(c, c2, g, ln) ==
         ( /\ s.op = "recv" /\ s.a = x.a /\ x0.sent
           /\ e.val = [ty |-> "int", v |-> x.mid]
           /\ IF x.qos = 1 THEN x.mid \in acks("PUBACK") ELSE x.mid \in acks("PUBCOMP") /\ x.rec )
+      \* the other direction ("fires exactly once": an acknowledged publish does fire): a strictly well-formed PUBACK / PUBCOMP
+      \* that arrives while connected for a request that is pending, was sent and (QoS 2) had its PUBREC on an earlier step
+      obl(t) == {inb[i].p.id : i \in {j \in 1..Len(inb) : inb[j].p.t = t /\ inb[j].st = "connected"
+                                                          /\ ~IsBad(DecodeStrict(inb[j].raw, c.A[s.a].ver))}}
+      mustFire == IF s.op # "recv" \/ Mid(ln) \/ IsContL(ln) \/ Nested(ln) THEN {} ELSE
+                  {i \in 1..Len(g.P) : LET x == g.P[i] IN
+                      /\ x.d \in 1..Len(c.D) /\ c.D[x.d].st = "pending" /\ s.a = x.a /\ x.sent /\ ~x.unj /\ c.A[s.a].tp = "open"
+                      /\ ((x.qos = 1 /\ x.mid \in obl("PUBACK")) \/ (x.qos = 2 /\ x.rec /\ x.mid \in obl("PUBCOMP")))}
       qos0OK == (isPub /\ s.qos.v = 0) =>
                    LET d == c2.D[rets[1].d] IN d.st # "pending" /\ (d.st = "ok" => d.val = [ty |-> "none"] /\ rets[1].mid = -1)
       midOK == newP = <<>> \/ newP[1].qos = 0 \/ newP[1].mid \in 1..65535
@@ -354,8 +363,9 @@ C05_Step(c, c2, g, ln) ==
        << <<qos0OK, "C05.qos0_not_fired_at_return", <<>> >>,
           <<midOK, "C05.msgid_missing", <<>> >>,
           <<\A i \in 1..Len(oks) : c.D[oks[i].d].st = "pending", "C05.fired_twice", <<>> >>,
-          <<\A i \in 1..Len(oks) : okJust(oks[i]), "C05.success_without_required_ack", <<s.op, IF oks # <<>> THEN oks[1] ELSE <<>> >> >> >>,
-       Len(oks) + Len(newP))
+          <<\A i \in 1..Len(oks) : okJust(oks[i]), "C05.success_without_required_ack", <<s.op, IF oks # <<>> THEN oks[1] ELSE <<>> >> >>,
+          <<\A i \in mustFire : c2.D[g.P[i].d].st = "ok", "C05.not_fired_on_required_ack", <<{g.P[i].mid : i \in mustFire}>> >> >>,
+       Len(oks) + Len(newP) + Cardinality(mustFire))
 C05_End(c, g) == OKr(g)
 
 
@@ -1028,7 +1038,7 @@ Item(tag, ids, ds, ts) == [tag |-> tag, ids |-> ids, ds |-> ds, ts |-> ts]
 \* the comparable content of a line
 Items(ln) ==
   LET s == ln.stim
-      dec(b) == LET d == DecodeLenient(b, 4) IN IF IsBad(d) THEN [t |-> "malformed"] ELSE d
+      dec(b) == LET d == DecodeLenient(b, 4) IN IF IsBad(d) \/ (d.t = "PUBLISH" /\ d.qos = 3) THEN [t |-> "malformed"] ELSE d
       stimItem ==
         CASE s.op = "recv" ->
                LET ps == Frame(s.bytes).pkts  ds == [i \in 1..Len(ps) |-> dec(ps[i])] IN
